@@ -156,6 +156,18 @@ def gen_drift_twolevel(ctx, traces):
             "traces": len(traces), "finalize_probe_traces": len(probes), "drifting": len(drift), "examples": drift[:5]}
 
 
+def gen_drift_disk(ctx, nmax):
+    """DiskRevolve / PeriodicDiskRevolve traces against the Disk-Revolve generator model (diagnostic only)."""
+    cfgs = (boxes.revolve_family(nmax, (1, 2, 3), boxes.COSTS8, classes=("DiskRevolve", "PeriodicDiskRevolve"))
+            + boxes.revolve_family(min(nmax, 12), (1, 2), boxes.FRAC[:3], classes=("DiskRevolve", "PeriodicDiskRevolve")))
+    traces = [t for t in record.record_many(cfgs) if not t.get("ctor")]
+    verdicts = fw.validate(ctx, traces, module="TraceGenDisk", tag="gdk")
+    drift = [fw.describe(t) for t, v in zip(traces, verdicts) if any(c == "GEN.drift" for c, _, _ in v["viol"])]
+    return {"model": "GenDiskCore (any split attaining the Disk-Revolve recurrence or the closed-form period; any "
+                     "Bellman-optimal binomial advance)", "traces": len(traces), "drifting": len(drift),
+            "examples": drift[:5]}
+
+
 def gen_drift_mixed(ctx, nmax):
     """Implementation traces against the mixed generator model (diagnostic only)."""
     cfgs = boxes.mixed(nmax)
